@@ -27,7 +27,7 @@ RULE = ("1-3 stages x {directly declared | cloned from one template with overrid
         "extra constraints / parameter values} x per-stage method MS|SS|DC, intg, N, M, grid, free/fixed/param horizon, "
         "explicit quadrature states, integrals with time inside, sums, at_t0/at_tf terms x master variables x 0-3 coupling "
         "constraints (stage boundary terms, integrals, T, t0, tf) x master objective terms; optional decoy master using the "
-        "same template first.  Compared: objective value and all rows.  non-trivial = at least two stages or a clone; "
+        "same template first.  Compared: objective value and all rows; sol(stage).sample read-back of per-stage starting values after a zero-iteration solve.  non-trivial = at least two stages or a clone; "
         "distinct by hash of the multi-stage case")
 
 
@@ -346,6 +346,39 @@ def rockit_side(args):
             out["objs"] = objs
             out["rows"] = [(s, list(map(float, hs))) for s, key, hs in rows]
             out["nx_opti"] = ob.nx
+            # sol(stage) read-back: with max_iter=0 the "solution" is the starting point; give every stage its own
+            # node-state guesses (the first semantic point) and read them back through sol(stage).sample
+            import numpy as np
+            rb = []
+            for i, (B, c) in enumerate(zip(Bs, cases)):
+                if c["method"]["kind"] == "SS" or not B.objs["x"]:
+                    continue
+                Xp = points[0]["stages"][i]["X"]          # list of columns
+                off = 0
+                for xs in B.objs["x"]:
+                    n_ = xs.numel()
+                    if xs.shape[1] != 1:
+                        off += n_
+                        continue
+                    arr = np.array([[float(Fr(col[off + r])) for col in Xp] for r in range(n_)])
+                    B.ocp.set_initial(xs, arr[0] if n_ == 1 else arr)
+                    off += n_
+            master.solver("ipopt", {"ipopt.print_level": 0, "print_time": False, "ipopt.sb": "yes", "ipopt.max_iter": 0})
+            try:
+                sol = master.solve_limited()
+            except RuntimeError as e_:
+                sol = None
+                if "Solver failed" not in str(e_) and "return_success" not in str(e_):
+                    raise
+            if sol is not None:
+                for i, (B, c) in enumerate(zip(Bs, cases)):
+                    if c["method"]["kind"] == "SS" or not B.objs["x"] or any(x_.shape[1] != 1 for x_ in B.objs["x"]):
+                        continue
+                    got = np.array(sol(B.ocp).sample(B.ocp.x, grid="control")[1], dtype=float)
+                    Xp = points[0]["stages"][i]["X"]
+                    exp = np.array([[float(Fr(v)) for v in col] for col in Xp])      # (N+1) x nx, time-major like DM2numpy
+                    rb.append([i, exp.reshape(-1).tolist(), got.reshape(-1).tolist()])
+            out["readback"] = rb
     except nlp.Mismatch as e:
         out["mismatch"] = str(e)
     except Exception as e:
@@ -386,8 +419,14 @@ def judge(cps, rr, mv):
             objs, mrows, _ = engine.model_rows(mv[i])
             if "error" in r or engine.unjudgeable(objs, mrows, r):
                 skipped += 1
-            elif not d and (len(mc["stages"]) > 1 or mc["template"] is not None):
-                nontriv.add(sha(mc))
+            elif not d:
+                for i_, exp, got in r.get("readback", []):
+                    if len(exp) != len(got) or any(not engine.close(a, b, scale=abs(b)) for a, b in zip(got, exp)):
+                        d = [{"what": "sol(stage).sample after a zero-iteration solve does not return that stage's own starting values",
+                              "stage": i_, "expected": exp[:8], "got": got[:8]}]
+                        break
+                if not d and (len(mc["stages"]) > 1 or mc["template"] is not None):
+                    nontriv.add(sha(mc))
         if d:
             dis.append({"property": PID, "what": d[:4], "case": mc, "points": pts, "finding_key": classify(mc, d)})
     return dis, nontriv, dist, skipped
